@@ -239,6 +239,34 @@ func (in *inst) proofs(s snap) *failure {
 			stat("proof_absent_ok", 1)
 		}
 	}
+	// stale nodes of the other durable versions of this history, added to the honest set, change nothing
+	if len(in.dur) > 1 {
+		union := nodeSet{}
+		for h, b := range set {
+			union[h] = b
+		}
+		for _, d := range in.dur {
+			if d.root == s.root {
+				continue
+			}
+			other, f := in.assemble(d.root)
+			if f != nil {
+				f.class = "old-version/" + f.class
+				f.detail = fmt.Sprintf("older durable root %x {%s}: %s", d.root, modelString(d.model), f.detail)
+				return f
+			}
+			for h, b := range other {
+				union[h] = b
+			}
+		}
+		for _, i := range keys {
+			r := verify(s.root, in.proofKey(i), union)
+			if r.panicked != "" || (r.err == nil) != (orig[i].err == nil) || !bytes.Equal(r.val, orig[i].val) {
+				return failf("proof/stale-nodes-change-answer", "with the nodes of older versions added VerifyProof(%x, key %x) = (%x, %v), honest set alone (%x, %v)", s.root, in.sc.key(i), r.val, r.err, orig[i].val, orig[i].err)
+			}
+		}
+		stat("proof_union_checks", 1)
+	}
 	// memo key: the complete node set
 	hs := make([]string, 0, len(set))
 	for h, b := range set {
